@@ -376,6 +376,8 @@ def run_unit(scratch, unit, prefixes, prop, tier, safety_default=None, drop_hint
                           "rlimit": f.get("rlimit"), "success": f.get("success")})
     lost_hints = [h for f in manifest["functions"] for h in f.get("lost_hints", [])]
     lost_fns = {h["fn"] for h in lost_hints}
+    # binders were added/removed and the renaming of the contract's locals is a guess (rule RN, heuristic form)
+    lost_fns |= {f["anchor"] for f in manifest["functions"] if f.get("heuristic_renames")}
     # functions that call a helper extracted without a contract (introduced by the change): what they
     # can prove about the helper's result is nothing, so their failures need a witness as well
     auto_names = [f["anchor"].rsplit("::", 1)[-1] for f in manifest["functions"] if f.get("auto")]
